@@ -196,6 +196,22 @@ func vh_C17_L6_wfq_fairness_bound() {
 	q := newWeightedFairQueueingPendingQueuePolicy(map[uint16]uint16{1: w1, 2: w2})
 	const maxLen = 2
 	n := 4
+	// an earlier busy period: one of the streams has sent 0..3 chunks alone and the scheduler
+	// has drained completely since (what a stream sent before an idle period gives it neither
+	// credit nor debt afterwards)
+	hist := vPick(4)
+	histStream := uint16(1 + vPick(2))
+	if hist == 0 {
+		histStream = 1
+	}
+	for i := 0; i < hist; i++ {
+		q.Push(vFrag(histStream, uint16(100+i), 0, 1, false, maxLen))
+	}
+	for i := 0; i < hist; i++ {
+		sel := q.Peek()
+		vassert(sel != nil && q.Pop(sel.chunkPayloadData()) == nil, "the earlier busy period drains")
+	}
+	vassert(q.Peek() == nil, "the scheduler is idle")
 	var pushed [2]int
 	for i := 0; i < n; i++ {
 		for s := 0; s < 2; s++ {
@@ -294,12 +310,13 @@ func vh_C17_L1_framing_follows_latest_init() {
 	localIl := vPick(2) == 1
 	b := vHandshakeEndpoint(localIl, false)
 	b.initServer()
+	split := vPick(3) // the supported chunk types in one parameter, or spread over two
 	mkInit := func(il bool) []byte {
 		init := &chunkInit{}
 		init.initiateTag, init.initialTSN = 1+nondetU32()%0xfffffffe, nondetU32()
 		init.numOutboundStreams, init.numInboundStreams = 10, 10
 		init.advertisedReceiverWindowCredit = 1 << 16
-		setSupportedExtensions(&init.chunkInitCommon, il)
+		vSetSupportedExtensionsSplit(&init.chunkInitCommon, il, split)
 		raw, err := (&packet{sourcePort: 5000, destinationPort: 5000, chunks: []chunk{init}}).marshal(true)
 		vassert(err == nil, "INIT marshals")
 		return raw
@@ -332,23 +349,42 @@ func vh_C17_L1_framing_follows_latest_init() {
 	vInbound(b, echo)
 	vassert(b.getState() == established, "established")
 	_ = vWriterWake(b)
-	s, oerr := b.OpenStream(1, PayloadTypeWebRTCBinary)
+	// a two-fragment message on each of two streams: framed as negotiated, and without
+	// interleaving the fragments of each message occupy consecutive TSNs (the way the queue
+	// hands out chunks follows the framing that was negotiated last, too)
+	s1, oerr := b.OpenStream(1, PayloadTypeWebRTCBinary)
 	vassert(oerr == nil, "open stream")
-	_, werr := s.WriteSCTP(nondetBytes(1), PayloadTypeWebRTCBinary)
+	s2, oerr2 := b.OpenStream(2, PayloadTypeWebRTCBinary)
+	vassert(oerr2 == nil, "open stream")
+	size := int(b.maxPayloadSize) + 1
+	_, werr := s1.WriteSCTP(make([]byte, size), PayloadTypeWebRTCBinary)
 	vassert(werr == nil, "write accepted")
-	b.cwnd = 1 << 16
-	seen := false
+	_, werr = s2.WriteSCTP(make([]byte, size), PayloadTypeWebRTCBinary)
+	vassert(werr == nil, "write accepted")
+	b.cwnd, b.rwnd = 1<<20, 1<<20
+	var count [3]int
+	var lo, hi [3]uint32
 	for _, raw := range vWriterWake(b) {
 		if p := vDecode(raw); p != nil {
 			for _, c := range p.chunks {
-				if d, ok := c.(*chunkPayloadData); ok {
-					seen = true
+				if d, ok := c.(*chunkPayloadData); ok && d.streamIdentifier <= 2 {
 					vassert(d.isIData() == (localIl && il2), "user data is framed as negotiated with the peer that completed the handshake")
+					i := d.streamIdentifier
+					if count[i] == 0 || sna32LT(d.tsn, lo[i]) {
+						lo[i] = d.tsn
+					}
+					if count[i] == 0 || sna32GT(d.tsn, hi[i]) {
+						hi[i] = d.tsn
+					}
+					count[i]++
 				}
 			}
 		}
 	}
-	vassert(seen, "the message goes out")
+	vassert(count[1] == 2 && count[2] == 2, "both messages go out, two fragments each")
+	if !(localIl && il2) {
+		vassert(hi[1]-lo[1] == 1 && hi[2]-lo[2] == 1, "without interleaving the fragments of one message occupy consecutive TSNs")
+	}
 	vcover("end")
 }
 
@@ -432,3 +468,7 @@ func vh_C17_L5_scheduler_instances_are_independent() {
 	vassert(q1.Peek() != nil && q3.Peek() == nil, "nor does a second scheduler made from the same configuration")
 	vcover("end")
 }
+
+// C17.L1e: the same on the client side: interleaving follows everything the honoured INIT
+// ACK lists, whether in one Supported Extensions parameter or spread over two (= C04.L6b).
+func vh_C17_L1_framing_follows_init_ack() { vh_C04_L6_agreement_follows_init_ack() }
